@@ -202,7 +202,7 @@ pub fn suites() -> Vec<Suite> {
     ]
 }
 
-pub const RULE: &str = "case = (world configuration, history of <= 40 operations) decoded from a choice tape against the live state: 4 actors + 2 bystanders, 1-3 pairs over native/native, native/cw20, cw20/cw20 with commission from {default, 0, 1e-18, 0.03, 0.5, 1-1e-18, 1, random}, operations provide / withdraw / swap via execute / swap via cw20 hook / donation / LP donation / router route / allowance change / forged internal call, with adversarial message shapes and funds games; after EVERY step and for every pair with positive supply R0'*R1'*S^2 >= R0*R1*S'^2 in exact arithmetic; non-trivial = the history contains a successful provide, a successful swap and a successful withdraw on the same pair; distinct = hash of the tape";
+pub const RULE: &str = "case = (world configuration, history of <= 40 operations) decoded from a choice tape against the live state: 4 actors + 2 bystanders, 1-3 pairs over native/native, native/cw20, cw20/cw20 with commission from {default, 0, 1e-18, 0.03, 0.5, 1-1e-18, 1, random}, operations provide / withdraw / swap via execute / swap via cw20 hook / donation / LP donation / router route / allowance change / forged internal call / owner administration (decimals re-registration, config update, pair migration), with adversarial message shapes, funds games and surplus coins of the pair's other native denom; after EVERY step and for every pair with positive supply R0'*R1'*S^2 >= R0*R1*S'^2 in exact arithmetic; non-trivial = the history contains a successful provide, a successful swap and a successful withdraw on the same pair; distinct = hash of the tape";
 pub const ASSUMPTIONS: &[&str] = &[
     "cw-multi-test 0.16.1 with cw20-base 1.0.0 is the chain model (atomic transactions, bank, token semantics)",
     "reserves and supplies are read from raw chain storage (pair's bank / cw20 balances, LP token_info), not from the contracts' own queries",
